@@ -182,7 +182,7 @@ func H_C01_match() {
 	vc := vChoose(nValuesC01)
 	op := vChoose(8)
 	if vTier() == 0 {
-		vAssume((vc+op)%6 == vSeed()%6) // quick: a seed-selected sixth of the (shape, operator) pairs
+		vAssume((vc+op)%12 == vSeed()%12) // quick: a seed-selected twelfth of the (shape, operator) pairs
 	}
 	xv, xm := valueC01(vc)
 	yv, ym := scalarC01(0)
@@ -213,7 +213,7 @@ func H_C01_composite() {
 	vc := vChoose(nValuesC01)
 	op := vChoose(8)
 	if vTier() == 0 {
-		vAssume((vc+op)%6 == vSeed()%6)
+		vAssume((vc+op)%12 == vSeed()%12)
 	}
 	xv, xm := valueC01(vc)
 	yv, ym := scalarC01(0)
